@@ -91,12 +91,17 @@ func vMoreSpecific(a, b []vTok) bool {
 // H_C03: best match - literals beat variables - and independence of the
 // registration order.
 func H_C03(tbl, router, perm int) {
+	stage := 0
+	if perm >= 100 { // thorough bounds
+		perm -= 100
+		stage = 10
+	}
 	t := vTableFor(tbl)
 	h1 := vNewH(t)
 	c1 := h1.buildOrdered(vRouter(router), 0)
 	h2 := &vH{table: t, flat: h1.flat, cond: h1.cond}
 	c2 := h2.buildOrdered(vRouter(router), perm)
-	q := vSymRequest(0, 12, 3, nil)
+	q := vSymRequest(stage, 12, 3, nil)
 	vKnownRouting(q, router)
 	o1 := h1.run(c1, q)
 	o2 := h2.run(c2, q)
